@@ -37,7 +37,7 @@ type c13Key struct {
 	Value   int64  `json:"value"`
 }
 type c13In struct {
-	Kind  string   `json:"kind"` // ax | seq | sort | hist | top | table
+	Kind  string   `json:"kind"` // ax | seq | sort | hist | top | table | groups
 	Mode  string   `json:"mode"` // raw --sort argument (hex, may be any bytes)
 	Keys  []c13Key `json:"keys"`
 	Pairs [][2]int `json:"pairs,omitempty"`
@@ -45,6 +45,10 @@ type c13In struct {
 	Via   string   `json:"via,omitempty"` // Sort | SortBy | counter | subkey | table-rows | table-cols | groups
 	Hist  []c13Ev  `json:"history,omitempty"` // kind hist: samples interleaved with reads (rendered frames)
 	Big   *c13Big  `json:"big,omitempty"`     // kind top
+	// kind groups (rare reduce): Keys[i] is the text Groups orders group i by (oracles), GParts its columns
+	GParts   [][]string `json:"group_columns_hex,omitempty"`
+	SortKind int        `json:"sort_kind,omitempty"`       // 0: no --sort expression, 1: {sum}, 2: "{1} {0}"
+	Hists    [][]c13Ev  `json:"arrival_orders,omitempty"` // the same samples in several orders, reads in between
 	// kind table
 	NRows   int      `json:"n_rows,omitempty"`
 	ColMode string   `json:"col_mode,omitempty"` // hex: the column sorter (spark --sort-cols) the keep-trims use
@@ -682,6 +686,216 @@ func c13TableCase(in c13In) Case {
 		Nontrivial: ntrim > 0, Tags: tags}
 }
 
+func groupParts(in c13In, i int) []string {
+	ps := make([]string, len(in.GParts[i]))
+	for j, h := range in.GParts[i] {
+		b, _ := hex.DecodeString(h)
+		ps[j] = string(b)
+	}
+	return ps
+}
+
+// the text HEAD's Groups hands to the NameSorter for a group (what coq/Model/Sort.v group_item states)
+func groupOrderText(parts []string, kind int) string {
+	switch kind {
+	case 0:
+		return strings.Join(parts, expressions.ArraySeparatorString)
+	case 2:
+		return parts[1] + " " + parts[0]
+	}
+	return "" // {sum}: the model takes the decimal total
+}
+
+// rare reduce -g {1} -g {2} [-g {3}] -a sum={sumi {.} {n}} [--sort expr] [--sort-reverse]
+func c13GroupsRun(in c13In) (out c13Out) {
+	defer func() {
+		if e := recover(); e != nil {
+			out = c13Out{Panic: fmt.Sprint(e)}
+		}
+	}()
+	mode := modeStr(in)
+	if _, err := helpers.BuildSorter(mode); err != nil {
+		return c13Out{Err: true}
+	}
+	ncols := len(in.GParts[0])
+	index := map[string]int{}
+	for i := range in.GParts {
+		index[strings.Join(groupParts(in, i), expressions.ArraySeparatorString)] = i
+	}
+	out.Outs = [][]int{}
+	for _, hist := range in.Hists {
+		g := aggregation.NewAccumulatingGroup(stdlib.NewStdKeyBuilder())
+		for c := 0; c < ncols; c++ {
+			if err := g.AddGroupExpr("g"+strconv.Itoa(c), "{"+strconv.Itoa(c+1)+"}"); err != nil {
+				panic(err)
+			}
+		}
+		if err := g.AddDataExpr("sum", "{sumi {.} {"+strconv.Itoa(ncols+1)+"}}", "0"); err != nil {
+			panic(err)
+		}
+		switch in.SortKind {
+		case 1:
+			if err := g.SetSort("{sum}"); err != nil {
+				panic(err)
+			}
+		case 2:
+			if err := g.SetSort("{1} {0}"); err != nil {
+				panic(err)
+			}
+		}
+		ns := nameSorterFor(mode) // one sorter for all frames of a run, as cmd/reduce.go keeps it
+		read := func() []int {
+			res := []int{}
+			for _, gk := range g.Groups(ns) {
+				res = append(res, index[string(gk)])
+			}
+			return res
+		}
+		for _, e := range hist {
+			if e.Read {
+				read()
+				continue
+			}
+			args := append(groupParts(in, e.Key), strconv.FormatInt(e.Inc, 10))
+			g.Sample(expressions.MakeArray(args...))
+		}
+		read() // a repeated read must not matter either
+		out.Outs = append(out.Outs, read())
+	}
+	return
+}
+
+func c13GroupsCase(in c13In) Case {
+	out := c13GroupsRun(in)
+	terms, _, _, _, _ := c13Oracles(in.Keys)
+	mode := modeStr(in)
+	gs := make([]string, len(in.GParts))
+	shared := false
+	firsts := map[string]bool{}
+	for i := range in.GParts {
+		hs := make([]string, len(in.GParts[i]))
+		for j, h := range in.GParts[i] {
+			hs[j] = "\"" + h + "\""
+		}
+		gs[i] = fmt.Sprintf("g %s (%s)", CoqList(hs), terms[i])
+		if firsts[in.GParts[i][0]] {
+			shared = true
+		}
+		firsts[in.GParts[i][0]] = true
+	}
+	hs := make([]string, len(in.Hists))
+	for i, h := range in.Hists {
+		es := make([]string, len(h))
+		for j, e := range h {
+			if e.Read {
+				es[j] = "eR"
+			} else {
+				es[j] = fmt.Sprintf("eS %d %s", e.Key, Z(e.Inc))
+			}
+		}
+		hs[i] = CoqList(es)
+	}
+	cin := fmt.Sprintf("iGrp %s %d %s %s", HS(mode), in.SortKind, CoqList(gs), CoqList(hs))
+	var cout string
+	switch {
+	case out.Panic != "":
+		cout = "oPanic"
+	case out.Err:
+		cout = "oErr"
+	default:
+		rows := make([]string, len(out.Outs))
+		for i, r := range out.Outs {
+			rows[i] = coqInts(r)
+		}
+		cout = "oSort " + CoqList(rows)
+	}
+	lname := strings.ToLower(mode)
+	if i := strings.Index(lname, ":"); i >= 0 {
+		lname = lname[:i]
+	}
+	if lname == "" {
+		lname = "text"
+	}
+	if lname == "context" {
+		lname = "contextual"
+	}
+	tags := []string{"kind=groups", "via=groups", "mode=" + lname, fmt.Sprintf("group-columns=%d", len(in.GParts[0])),
+		[]string{"sort-expr=none", "sort-expr={sum}", "sort-expr=columns"}[in.SortKind]}
+	if strings.Contains(mode, ":") {
+		tags = append(tags, "with-modifier")
+	}
+	if shared {
+		tags = append(tags, "shared-first-column")
+	}
+	kb, _ := json.Marshal(in)
+	return Case{Coq: "(" + cin + ", " + cout + ")", Desc: map[string]any{"input": in, "impl": out}, Key: string(kb),
+		Nontrivial: len(in.GParts) >= 3 && len(in.GParts[0]) >= 2, Tags: tags}
+}
+
+// group columns with shared prefixes: hosts x statuses (x methods), numbers and weekday names among them
+var groupColValues = [][]string{
+	{"web", "db", "a", "10", "9", "mon", "tue", "Web"},
+	{"200", "404", "500", "9", "10", "GET", "x", "fri"},
+	{"GET", "POST", "1", "2", "b"},
+}
+
+func genGroupsCase(r *Rng) c13In {
+	ncols := Pick(r, []int{1, 2, 2, 2, 3, 3})
+	kind := Pick(r, []int{0, 0, 0, 1, 2})
+	if kind == 2 {
+		ncols = 2 // "{1} {0}" names exactly two columns: with a third one groups would tie on the sort key
+	}
+	name := Pick(r, []string{"contextual", "contextual", "context", "numeric", "text"})
+	mod := Pick(r, []string{"", "", ":desc", ":reverse", ":rev", ":asc"}) // reduce: plain or --sort-reverse
+	spec := name + mod
+	if r.Chance(1, 4) {
+		spec = randCase(r, spec)
+	}
+	in := c13In{Kind: "groups", Mode: hex.EncodeToString([]byte(spec)), SortKind: kind}
+	n := r.Range(3, 8)
+	seen := map[string]bool{}
+	// few first-column values, so that groups share them
+	firsts := []string{Pick(r, groupColValues[0]), Pick(r, groupColValues[0]), Pick(r, groupColValues[0])}
+	for tries := 0; len(in.GParts) < n && tries < 200; tries++ {
+		parts := []string{Pick(r, firsts)}
+		for c := 1; c < ncols; c++ {
+			parts = append(parts, Pick(r, groupColValues[c]))
+		}
+		j := strings.Join(parts, "\x00")
+		if seen[j] {
+			continue
+		}
+		seen[j] = true
+		hp := make([]string, len(parts))
+		for i, p := range parts {
+			hp[i] = hex.EncodeToString([]byte(p))
+		}
+		in.GParts = append(in.GParts, hp)
+		in.Keys = append(in.Keys, mkKey(groupOrderText(parts, kind), 0))
+	}
+	k := len(in.GParts)
+	base := genHistory(r, k, kind == 1)
+	var samples []c13Ev
+	for _, e := range base {
+		if !e.Read {
+			samples = append(samples, e)
+		}
+	}
+	in.Hists = append(in.Hists, base)
+	for rep := 0; rep < 2; rep++ { // the same samples in two more arrival orders, reads in between
+		perm := randPerm(r, len(samples))
+		var h []c13Ev
+		for i, x := range perm {
+			h = append(h, samples[x])
+			if i+1 < len(perm) && r.Chance(1, 3) {
+				h = append(h, c13Ev{Read: true})
+			}
+		}
+		in.Hists = append(in.Hists, h)
+	}
+	return in
+}
+
 func bigName(style, i int) string {
 	if style == 0 {
 		return "k" + strconv.Itoa(i)
@@ -814,6 +1028,9 @@ func c13Case(in c13In) Case {
 	}
 	if in.Kind == "table" {
 		return c13TableCase(in)
+	}
+	if in.Kind == "groups" {
+		return c13GroupsCase(in)
 	}
 	out := c13Run(in)
 	terms, infos, layouts, instants, _ := c13Oracles(in.Keys)
@@ -1370,7 +1587,7 @@ func c13Gen(r *Rng, n int, tier string) []Case {
 		case x < 5:
 			in.Kind = "ax"
 			in.Keys = mkKeys(r, genNames(r, rc.keys, r.Range(2, 9)))
-		case x < 8:
+		case x < 7:
 			in.Kind = "seq"
 			in.Keys = mkKeys(r, genNames(r, rc.keys, r.Range(2, 7)))
 			k := len(in.Keys)
@@ -1391,7 +1608,12 @@ func c13Gen(r *Rng, n int, tier string) []Case {
 					in.Pairs = append(in.Pairs, in.Pairs[r.Intn(len(in.Pairs))])
 				}
 			}
-		case x < 10:
+		case x < 9:
+			in = genGroupsCase(r)
+			if len(in.GParts) < 2 {
+				continue
+			}
+		case x < 11:
 			in.Kind = "table"
 			// row and column sorts the table commands offer: mostly value, also text / numeric (and the rest)
 			viewName := Pick(r, []string{"value", "value", "value", "text", "numeric", rc.spec})
@@ -1409,7 +1631,7 @@ func c13Gen(r *Rng, n int, tier string) []Case {
 			in.NRows = len(rowNames)
 			in.Keys = append(mkKeys(r, rowNames), mkKeys(r, colNames)...)
 			in.THist = genTableHistory(r, len(colNames), len(rowNames))
-		case x < 13:
+		case x < 14:
 			in.Kind = "hist"
 			in.Via = Pick(r, []string{"counter", "subkey", "table-rows", "table-cols", "groups", "groups"})
 			recipeKeys := rc.keys
@@ -1644,6 +1866,9 @@ func fixedCases() []c13In {
 		mk("sort", "text:desc", "table-rows", "a", "b", "c", "d"),                 //
 		mk("ax", "contextual", "", "Jan", "FEB", "march", "Apr", "may", "JUNE", "jul", "aug", "sept", "oct", "nov", "dec"),
 		mk("ax", "contextual", "", "sat", "fri", "thu", "wed", "tue", "mon", "sun"),
+		mkGroups("contextual:desc", 0, [][]string{{"web", "200"}, {"web", "404"}, {"web", "500"}, {"db", "200"}, {"db", "500"}}),
+		mkGroups("contextual", 0, [][]string{{"web", "200"}, {"web", "404"}, {"web", "500"}, {"db", "200"}, {"db", "500"}}),
+		mkGroups("contextual:desc", 2, [][]string{{"10", "9"}, {"10", "10"}, {"9", "10"}, {"9", "9"}}),
 		mkTable("value", "text", true, []string{"a", "b", "c"}, []string{"x", "y"},
 			[]c13TEv{{Op: "sample", Col: 0, Row: 0, Inc: 20}, {Op: "sample", Col: 1, Row: 0, Inc: 3}, {Op: "sample", Col: 1, Row: 1, Inc: 10},
 				{Op: "sample", Col: 1, Row: 2, Inc: 5}, {Op: "read"}, {Op: "cols", Cols: []int{0}}, {Op: "read"}}),
@@ -1657,6 +1882,23 @@ func fixedCases() []c13In {
 		mkHist("value", "table-cols", []string{"a", "b", "c"}, [][2]int64{{0, 5}, {1, 3}, {2, 1}, {-1, 0}, {2, 9}, {1, 4}}),
 		mkHist("value", "subkey", []string{"a", "b", "c"}, [][2]int64{{0, 5}, {1, 3}, {2, 1}, {-1, 0}, {2, 9}, {1, 4}}),
 	}
+}
+
+func mkGroups(mode string, kind int, groups [][]string) c13In {
+	in := c13In{Kind: "groups", Mode: hex.EncodeToString([]byte(mode)), SortKind: kind}
+	var h1, h2 []c13Ev
+	for i, parts := range groups {
+		hp := make([]string, len(parts))
+		for j, p := range parts {
+			hp[j] = hex.EncodeToString([]byte(p))
+		}
+		in.GParts = append(in.GParts, hp)
+		in.Keys = append(in.Keys, mkKey(groupOrderText(parts, kind), 0))
+		h1 = append(h1, c13Ev{Key: i, Inc: int64(i + 1)}, c13Ev{Read: true})
+		h2 = append([]c13Ev{{Key: i, Inc: int64(i + 1)}}, h2...)
+	}
+	in.Hists = [][]c13Ev{h1, h2}
+	return in
 }
 
 func mkTable(mode, colMode string, byRows bool, rows, cols []string, h []c13TEv) c13In {
@@ -1696,6 +1938,7 @@ func main() {
 			"key recipes: numbers in several spellings (1, 1.0, 01, 1e0, -0, hex float, subnormal, > 2^53, out of range), nan/inf, text, number-like text (5x, 1,5), weekday/month names and abbreviations in random case, near-misses (sund, FR\\u0130), dates in 15 layouts incl. years 0001..9999 (instants outside the int64-nanosecond range), mixtures; values: distinct / many ties / all equal / int64 extremes. " +
 			"kinds: ax = every ordered pair on a fresh BuildSorter instance (decision matrix, compared off the diagonal; axioms on all triples in Coq); seq = 3..40 comparisons of distinct keys incl. swapped and repeated pairs on one instance; " +
 			"hist = a collector (MatchCounter.ItemsSortedBy, SubKeyCounter.ItemsSorted, TableAggregator.OrderedRows/OrderedColumns, AccumulatingGroup.Groups with SetSort({sum}) as in rare reduce) fed 5..30 samples interleaved with reads of the sorted view (rendered frames) on one sorter instance; the final read is compared with the model's function of the final totals alone; " +
+			"groups = rare reduce at the library level: an AccumulatingGroup with 1..3 group columns (values from small sets, so that groups share their first column; numbers and weekday names among them), no --sort expression / --sort {sum} / --sort \"{1} {0}\", plain or reversed text / numeric / contextual NameSorter, the same samples in 3 arrival orders with reads in between and a repeated final read; " +
 			"table = a TableAggregator with 2..6 rows and columns fed 6..36 cell samples interleaved with frames (OrderedRows + OrderedColumns on persistent sorters) and Trim calls as the commands make them (spark: keep the last n columns in the column sorter's order, every frame; value predicates lo <= val <= hi; column sets), more samples after trims; the final OrderedRows or OrderedColumns (mostly value, also text / numeric / the rest, any modifier) and the set of rows / columns left are compared with the model's function of the final cells alone; " +
 			"top = 9 cases per run with 2,050..6,000 keys built from a counter (text k<i> or numbers 37*i mod 10007) and values (i*a+b) mod m (many ties), 2-3 arrival orders each: MatchCounter.ItemsSortedBy with limits 1, 2, 5, 50, groups/4-1, groups/4, groups, and SubKeyCounter.ItemsSorted / TableAggregator.OrderedRows at full length, any sort mode and modifier; the model answers firstn limit of its full (merge) sort and the boolean form checks the rows in a linear pass; " +
 			"sort = sorting.Sort / SortBy / MatchCounter.ItemsSortedBy / TableAggregator.OrderedRows / OrderedColumns on every arrangement (<= 5 keys, sometimes 6) or 50 random arrangements (6..12 keys), fresh sorter each. " +
